@@ -417,7 +417,7 @@ def gen_tables(rng, real_rows, real_irows, real_ed, symbols):
             c[6] = rng.choice(["E", "", "+/-"])
             tags.add("e-flag")
         if rng.random() < 0.1 and len(c[0].split("-")) == 3:
-            c[1] = rng.choice(["12.26 Y", "618 S", "0.5", "", "99.985", "<0.1", "3.0E5 Y"])
+            c[1] = rng.choice(["12.26 Y", "618 S", "0.5", "", "99.985", "<0.1", "3.0E5 Y", "1.5E-2", "2e1", "7.5(3)"])
             tags.add("abundance-column")
         if rng.random() < 0.05:
             c[2] = rng.choice(["", "1/2", "7", "(3/2)"])
@@ -583,7 +583,12 @@ def run(run: Run) -> int:
     except translate.Unreadable as e:
         run.proof_broken.append("translator: %s" % e)
         return run.finish(RULE)
-    pt.elements.H.neutron          # load the public neutron data first (lazy loading is C09's subject)
+    try:
+        pt.elements.H.neutron      # load the public neutron data first (lazy loading is C09's subject)
+    except Exception as e:  # noqa
+        run.violation("nsf.init raises on the embedded tables: %s: %s" % (type(e).__name__, e),
+                      dict(kind="init", table="public"), observable="init")
+        return run.finish(RULE)
     rep = run_driver("loader", nsf_lines(src["nsftable"], src["nsftableI"], ed3(ed)) + ["nsf_selfcheck"])
     if not rep or not rep[0].startswith("ok"):
         run.disagree("translator-vs-model-parse", dict(kind="selfcheck"), rep[:1], "generated rows")
